@@ -638,6 +638,17 @@ func genAuth() (string, error) {
 	emitList("verifyAllShape", "BatchVerifier.verifyAll: top-level statements (closure and if-bodies elided)", shape)
 	emitStr("verifyAllClosure", "BatchVerifier.verifyAll: body of the one-by-one closure verifyBatch", closure)
 	fmt.Fprintf(&b, "/-- return statements of verifyAll (outside the closure) other than its final one -/\ndef verifyAllEarlyReturns : Nat := %d\n\n", early)
+	// the signature-cache key: the three byte strings in full
+	kf := kbF.FindFunc("BatchTuple", "Key")
+	if kf == nil {
+		return "", fmt.Errorf("BatchTuple.Key not found")
+	}
+	emitStr("cacheKeySource", "normalised body of BatchTuple.Key()", g.StmtsText(kf.Body.List))
+	cc := kbF.FindFunc("", "CheckCache")
+	if cc == nil {
+		return "", fmt.Errorf("CheckCache not found")
+	}
+	emitStr("checkCacheSource", "normalised body of CheckCache()", g.StmtsText(cc.Body.List))
 	ad := kbF.FindFunc("BatchVerifier", "Add")
 	if ad == nil {
 		return "", fmt.Errorf("BatchVerifier.Add not found")
